@@ -363,6 +363,12 @@ func (ex *Exec) loadIndexed(arr *Cell, idx *T, site string) Value {
 	if k, ok := constOf(idx); ok {
 		c := ex.kid(arr, k)
 		if c == nil {
+			if ex.mergeDepth > 0 {
+				panic(mergeFail{"element beyond backing array in speculative arm"})
+			}
+			if ex.sat() == smt.Unsat {
+				panic(pathEnd{"infeasible"})
+			}
 			ex.programPanic("index out of range (internal)", site)
 		}
 		return ex.loadCell(c)
